@@ -26,6 +26,7 @@ PROBE_FINDINGS = [
     ("C04-panic-nil", "panic-nil", [22]),
     ("C04-block-order-replay", "loop-branch-then-defer", [26, 27]),
     ("C04-frame-stays-linked", "first-defer-panics", [29]),
+    ("C04-panic-value-not-gc-visible", "boxed-panic-value", [30]),
 ]
 
 # The exact trace llgo produces today for the probe units of the open findings ("CRASH" = the binary dies inside the
@@ -47,6 +48,7 @@ KNOWN_BAD = {
     26: ["top.rec rt:nilderef", "MONITOR: 1 registered deferred calls never ran; last site 262"],
     27: ["d 273 1 0", "d 272 1 0", "top.res 1", "MONITOR: 2 registered deferred calls never ran; last site 272"],
     29: ["CRASH", "p29.rec int:29", "p29.inner.d"],
+    30: ["p30.corrupted 20", "top.res 20"],
 }
 
 
@@ -122,6 +124,19 @@ def uncaught(open_unit):
     if val is None:
         return u, None
     return u, out + ["UNCAUGHT " + norm_panic_value(val)]
+
+
+VALUE_LINE = re.compile(r"^(rec2? \d+|recov \d+|rh \d+|top\.rec|go\.rec \d+|hrec \d+|ri \d+) ")
+
+
+def only_recovered_values_differ(ref, got):
+    """classifier of finding C04-panic-value-not-gc-visible: same trace shape, differences only in lines that print a recovered value"""
+    if len(ref) != len(got) or ref == got:
+        return False
+    for a, b in zip(ref, got):
+        if a != b and not (VALUE_LINE.match(a) and VALUE_LINE.match(b) and a.split(" ")[0] == b.split(" ")[0]):
+            return False
+    return True
 
 
 class Built:
@@ -352,6 +367,7 @@ def main():
 
     nviol = 0
     suppressed = 0
+    classified = 0
     results = core.pmap(job, list(range(nprog)), workers=workers)
     deferred_calls = 0
     for idx, fails, st, sigs, meta, umap in results:
@@ -372,6 +388,17 @@ def main():
             byfunc.setdefault(key, []).append((u, why, ref, got))
         for key in sorted(byfunc, key=lambda k: (isinstance(k, int) and k < 0, k)):
             u, why, ref, got = byfunc[key][0]
+            if u in umap and "boxed-panic-value" in avoid and all(only_recovered_values_differ(r_, g_) for (_, _, r_, g_) in byfunc[key]):
+                # second line of defence for the open finding C04-panic-value-not-gc-visible (run-time fault values cannot be
+                # kept reachable by the program): the corruption needs a collection during unwinding, so it depends on the
+                # heap history; suppressed only if the unit alone, in a fresh process, matches the references
+                solo = gen.generate(chk.seed, idx, avoid, nfuncs, only_units=[u])[0]
+                sb = build_run(w, llgo, w.sub("solo-p%d-u%d" % (idx, u)), solo, which=("llgo",))
+                sr = sb.res.get("llgo")
+                if sr is not None and parse(sr.err)[0].get(u) == ref:
+                    chk.known("C04-panic-value-not-gc-visible", "")
+                    classified += 1
+                    continue
             if nviol >= 8:
                 suppressed += 1
                 continue
@@ -405,6 +432,7 @@ def main():
     chk.cov["unit_outcomes"] = outcome
     chk.cov["construct_counts"] = dict(sorted(feats.items()))
     chk.cov["violations_suppressed_after_first_8"] = suppressed
+    chk.cov["failing_units_classified_as_gc_finding"] = classified
     chk.cov["rule"] = ("each unit = one call of a generated function (20 per program, 6 inputs each, 2 of them in a fresh goroutine with Goexit / one nil "
                        "dereference enabled, plus one final unit without a top-level recover); llgo (-O0, built from the working tree) vs go1.24.0 AND "
                        "go1.26.0: units on which the two references differ are discarded (reference_disagreement); a unit fails if its println trace "
